@@ -343,6 +343,7 @@ def execute_and_check(ctx, mda, model, cfg, x, sol, e0, label):
     from vlib.core import Violation
 
     del SCIPY_RESULTS[:]
+    ctx.run()  # evaluations = generated systems + MDA executions judged by the oracles
     try:
         with _record_scipy_results():
             out = mda.execute(x)
